@@ -24,19 +24,3 @@ Proof.
   - apply Z.eqb_eq. exact primes16_size_ok.
 Qed.
 
-Definition PPLEN : nat := Z.to_nat SMALLEST_OMITTED_PRIME.
-Lemma pp_primes_sweep : list_eqb PP_PRIMES (filter primeb (Zseq 0 PPLEN) ++ [0]) = true.
-Proof. vm_compute. reflexivity. Qed.
-
-Definition Pp_primes_stmt : Prop :=
-  PP_PRIMES = filter primeb (Zseq 0 PPLEN) ++ [0]
-  /\ (forall p, In p PP_PRIMES -> p = 0 \/ (prime p /\ p < SMALLEST_OMITTED_PRIME))
-  /\ (forall p, prime p -> p < SMALLEST_OMITTED_PRIME -> In p PP_PRIMES).
-Lemma pp_primes_correct : Pp_primes_stmt.
-Proof.
-  pose proof (list_eqb_eq _ _ pp_primes_sweep) as E. split; [exact E|].
-  assert (L : Z.of_nat PPLEN = SMALLEST_OMITTED_PRIME) by (unfold PPLEN; apply Z2Nat.id; apply Z.leb_le; reflexivity).
-  split; intro p; rewrite E, in_app_iff, filter_In, In_Zseq, primeb_spec, L; cbn [In].
-  - intros [[H1 H2]|[H|[]]]; [right; split; [exact H2|lia]|left; symmetry; exact H].
-  - intros Hp Hlt. left. split; [|exact Hp]. pose proof (prime_ge_2 _ Hp). lia.
-Qed.
